@@ -284,6 +284,11 @@ def run(chk):
                     chk.report_direct("fock:targets", f"{what}: target "
                                       f"indices changed to {prov}", {})
     chk.judge(chunk=600)
+    if chk.tier != "quick":
+        # system-level workflows (spec/Pipeline.tla): the steps that belong
+        # to this property's operations
+        from .pipeline import run_pipelines
+        run_pipelines(chk, "C13")
     return chk.finish(
         rule="seeded fraction terms (remainder tensors x numerator with "
              "rational coefficients x 1-3 sign-definite brackets with "
